@@ -579,7 +579,7 @@ fn run_inner(h: &History, cfg: &RunCfg) -> Outcome {
     W.with(|c| *c.borrow_mut() = Some(world));
     w(|w| {
         w.trace_on = cfg.trace;
-        w.allow_update_disabled = h.profile == "C07" || h.profile == "C05" || h.profile == "C14";
+        w.allow_update_disabled = matches!(h.profile.as_str(), "C07" | "C05" | "C14" | "C01");
         w.matrix = h.profile == "C08";
         w.prop = cfg.prop.clone();
     });
